@@ -75,7 +75,7 @@ impl GenCfg {
             allow_no_binary_name: false,
             allow_ignore_errors: false,
             allow_defer: false,
-            allow_env: false,
+            allow_env: true,
             allow_external: true,
             hostile_names: true,
             allow_custom_template: true,
@@ -97,7 +97,7 @@ impl GenCfg {
             allow_no_binary_name: false,
             allow_ignore_errors: false,
             allow_defer: false,
-            allow_env: false,
+            allow_env: true,
             allow_external: false,
             hostile_names: true,
             allow_custom_template: false,
@@ -666,6 +666,28 @@ fn gen_args(rng: &mut Rng, cfg: &GenCfg, sw: &Swarm, names: &mut Names, c: &mut 
         }
         if sw.globals && !matches!(action, Action::Help | Action::HelpShort | Action::HelpLong | Action::Version) && rng.chance(1, 4) {
             a.global = true;
+        }
+        if cfg.allow_env && a.action.takes_values() && rng.chance(1, 5) {
+            // the variable is never set in a worker (the environment is scrubbed): only its name matters
+            a.env = Some(format!("CLAPSIMENV_{n:03}"));
+            if cfg.help_features {
+                match rng.below(6) {
+                    0 => a.hide_env = true,
+                    1 => a.hide_env_values = true,
+                    _ => {}
+                }
+            }
+        }
+        if cfg.allow_env && a.action.takes_values() && rng.chance(1, 5) {
+            // the variable is never set in a worker (the environment is scrubbed): only its name matters
+            a.env = Some(format!("CLAPSIMENV_{n:03}"));
+            if cfg.help_features {
+                match rng.below(6) {
+                    0 => a.hide_env = true,
+                    1 => a.hide_env_values = true,
+                    _ => {}
+                }
+            }
         }
         decorate_help(rng, cfg, sw, &mut a, n, &headings);
         c.args.push(a);
